@@ -51,7 +51,11 @@ def not_(c):
 
 
 def eq(a, b):
-    if sym(a, b): return R(a) == R(b)
+    if sym(a, b):
+        if isinstance(a, bool) or isinstance(b, bool) or (is_sym(a) and z3.is_bool(a)) or (is_sym(b) and z3.is_bool(b)):
+            from .mirsym import to_z3
+            return to_z3(a) == to_z3(b)
+        return R(a) == R(b)
     return a == b
 
 
